@@ -13,55 +13,53 @@ use async_graphql::Positioned;
 use crate::ast::*;
 use crate::vsrc::Src;
 
-/// A chain of `w` wrappers (each a field with a sub-selection or an inline fragment, chosen
-/// by the solver) around a leaf field: nesting depth is exactly `w`; the recursion limit L
-/// rejects iff w > L.
+/// A chain of exactly W wrappers (each a field with a sub-selection or an inline fragment,
+/// chosen by the solver) around a leaf field: nesting depth is exactly W; the recursion limit
+/// L (EVERY usize) rejects iff W > L.
 fn rec_depth_chain<S: Src, const W: usize>(s: &mut S) {
-    let w = s.below(W + 1);
     let limit = s.usize();
     let mut items = vec![field("leaf", None, Vec::new(), Vec::new())];
     let mut i = 0;
     while i < W {
-        if i < w {
-            let as_field = s.bool();
-            items = if as_field { vec![field("f", None, Vec::new(), items)] } else { vec![inline(items)] };
-        }
+        let as_field = s.bool();
+        items = if as_field { vec![field("f", None, Vec::new(), items)] } else { vec![inline(items)] };
         i += 1;
     }
     let doc = ManuallyDrop::new(query_doc(items));
-    let r = check_recursive_depth(&doc, limit);
+    let r = ManuallyDrop::new(check_recursive_depth(&doc, limit));
     let ok = r.is_ok();
-    std::mem::forget(r);
-    cover!(w == W && limit == W, "limit equals the nesting");
-    cover!(w > limit, "nesting above the limit");
-    assert!(ok == (w <= limit), "recursion limit: rejected iff nesting > limit");
+    cover!(limit == W, "limit equals the nesting");
+    cover!(W > limit || W == 0, "nesting above the limit");
+    assert!(ok == (W <= limit), "recursion limit: rejected iff nesting > limit");
 }
+pub fn rec_depth_chain0<S: Src>(s: &mut S) { rec_depth_chain::<S, 0>(s) }
 pub fn rec_depth_chain1<S: Src>(s: &mut S) { rec_depth_chain::<S, 1>(s) }
 pub fn rec_depth_chain2<S: Src>(s: &mut S) { rec_depth_chain::<S, 2>(s) }
 
-/// A field carrying d in 0..=2 directives, optionally inside an inline fragment: the
-/// directive limit L rejects iff d > L.
-pub fn max_directives<S: Src>(s: &mut S) {
-    let d = s.below(3);
+/// A field carrying exactly D directives, optionally inside an inline fragment (solver-chosen):
+/// the directive limit L (EVERY usize) rejects iff D > L.
+fn max_directives<S: Src, const D: usize>(s: &mut S) {
     let limit = s.usize();
     let nested = s.bool();
     let mut dirs = Vec::new();
-    if d >= 1 {
+    if D >= 1 {
         dirs.push(directive("a"));
     }
-    if d >= 2 {
+    if D >= 2 {
         dirs.push(directive("b"));
     }
     let f = field("f", None, dirs, Vec::new());
     let items = if nested { vec![inline(vec![f])] } else { vec![f] };
     let doc = ManuallyDrop::new(query_doc(items));
-    let r = check_max_directives(&doc, limit);
+    let r = ManuallyDrop::new(check_max_directives(&doc, limit));
     let ok = r.is_ok();
-    std::mem::forget(r);
-    cover!(d == 2 && limit == 2 && nested, "limit equals the count, nested");
-    cover!(d > limit, "count above the limit");
-    assert!(ok == (d <= limit), "directive limit: rejected iff count > limit");
+    cover!(limit == D && nested, "limit equals the count, nested");
+    cover!(D > limit || D == 0, "count above the limit");
+    assert!(ok == (D <= limit), "directive limit: rejected iff count > limit");
 }
+pub fn max_directives0<S: Src>(s: &mut S) { max_directives::<S, 0>(s) }
+pub fn max_directives1<S: Src>(s: &mut S) { max_directives::<S, 1>(s) }
+pub fn max_directives2<S: Src>(s: &mut S) { max_directives::<S, 2>(s) }
 
 /// The real depth and complexity visitors, composed as `check_rules` composes them, driven
 /// by EVERY well-nested script of N field events: depth = maximum nesting, complexity =
@@ -99,19 +97,24 @@ fn depth_complexity<S: Src, const N: usize>(s: &mut S) {
     }));
     let (depth, complexity) = drive_depth_complexity(&reg, &doc, &f, &script);
     cover!(depth_ref == N / 2, "fully nested");
-    cover!(depth_ref == 1 && N > 2, "flat siblings");
+    cover!((depth_ref == 1 && N > 2) || N == 2, "flat siblings");
     assert!(depth == depth_ref, "depth = maximum field nesting");
     assert!(complexity == fields_ref, "complexity = number of fields");
 }
 pub fn depth_complexity2<S: Src>(s: &mut S) { depth_complexity::<S, 2>(s) }
 pub fn depth_complexity4<S: Src>(s: &mut S) { depth_complexity::<S, 4>(s) }
 pub fn depth_complexity6<S: Src>(s: &mut S) { depth_complexity::<S, 6>(s) }
+pub fn depth_complexity8<S: Src>(s: &mut S) { depth_complexity::<S, 8>(s) }
 
 harnesses! {
+    #[kani::unwind(5)] #[kani::stub(std::fmt::format, crate::stubs::fmt_stub)] #[kani::stub(std::hash::RandomState::new, crate::stubs::rs_new)] c10_rec_depth_chain0 => rec_depth_chain0;
     #[kani::unwind(5)] #[kani::stub(std::fmt::format, crate::stubs::fmt_stub)] #[kani::stub(std::hash::RandomState::new, crate::stubs::rs_new)] c10_rec_depth_chain1 => rec_depth_chain1;
     #[kani::unwind(5)] #[kani::stub(std::fmt::format, crate::stubs::fmt_stub)] #[kani::stub(std::hash::RandomState::new, crate::stubs::rs_new)] c10_rec_depth_chain2 => rec_depth_chain2;
-    #[kani::unwind(5)] #[kani::stub(std::fmt::format, crate::stubs::fmt_stub)] #[kani::stub(std::hash::RandomState::new, crate::stubs::rs_new)] c10_max_directives => max_directives;
+    #[kani::unwind(5)] #[kani::stub(std::fmt::format, crate::stubs::fmt_stub)] #[kani::stub(std::hash::RandomState::new, crate::stubs::rs_new)] c10_max_directives0 => max_directives0;
+    #[kani::unwind(5)] #[kani::stub(std::fmt::format, crate::stubs::fmt_stub)] #[kani::stub(std::hash::RandomState::new, crate::stubs::rs_new)] c10_max_directives1 => max_directives1;
+    #[kani::unwind(5)] #[kani::stub(std::fmt::format, crate::stubs::fmt_stub)] #[kani::stub(std::hash::RandomState::new, crate::stubs::rs_new)] c10_max_directives2 => max_directives2;
     #[kani::unwind(8)] #[kani::stub(std::fmt::format, crate::stubs::fmt_stub)] #[kani::stub(std::hash::RandomState::new, crate::stubs::rs_new)] c10_depth_complexity2 => depth_complexity2;
     #[kani::unwind(8)] #[kani::stub(std::fmt::format, crate::stubs::fmt_stub)] #[kani::stub(std::hash::RandomState::new, crate::stubs::rs_new)] c10_depth_complexity4 => depth_complexity4;
     #[kani::unwind(8)] #[kani::stub(std::fmt::format, crate::stubs::fmt_stub)] #[kani::stub(std::hash::RandomState::new, crate::stubs::rs_new)] c10_depth_complexity6 => depth_complexity6;
+    #[kani::unwind(10)] #[kani::stub(std::fmt::format, crate::stubs::fmt_stub)] #[kani::stub(std::hash::RandomState::new, crate::stubs::rs_new)] c10_depth_complexity8 => depth_complexity8;
 }
